@@ -136,7 +136,78 @@ def type_env(idx: PyIndex, fi: FuncInfo, fn: ast.AST, exact: Dict[str, str]) -> 
     return env
 
 
+_LIST_VIEWS: Dict[int, Optional[FuncInfo]] = {}
+
+
+def _list_view(h: Optional[FuncInfo]) -> Optional[FuncInfo]:
+    """A generator function read as the function that returns the list of what it yields (`yield E` -> append, `yield from X` -> extend, `return` -> return the
+    list): the same values in the same order for every caller that consumes the generator completely, which is how the package uses its generators
+    (list(), join, extend, for).  None when a yield stands inside an expression."""
+    if h is None or not isinstance(h.node, ast.FunctionDef) or not any(isinstance(x, (ast.Yield, ast.YieldFrom)) for x in ast.walk(h.node)):
+        return h
+    key = id(h.node)
+    if key in _LIST_VIEWS:
+        return _LIST_VIEWS[key]
+    fn = copy.deepcopy(h.node)
+    acc = '_acc'
+    ok = [True]
+
+    class _Y(ast.NodeTransformer):
+        def visit_FunctionDef(self, node):
+            if node is not fn:
+                return node
+            self.generic_visit(node)
+            return node
+
+        def visit_Lambda(self, node):
+            return node
+
+        def visit_Expr(self, node):
+            v = node.value
+            if isinstance(v, ast.Yield) and v.value is not None and not any(isinstance(x, (ast.Yield, ast.YieldFrom)) for x in ast.walk(v.value)):
+                call = ast.Call(func=ast.Attribute(value=ast.Name(id=acc, ctx=ast.Load()), attr='append', ctx=ast.Load()), args=[v.value], keywords=[])
+                return ast.copy_location(ast.Expr(value=call), node)
+            if isinstance(v, ast.YieldFrom) and not any(isinstance(x, (ast.Yield, ast.YieldFrom)) for x in ast.walk(v.value)):
+                call = ast.Call(func=ast.Attribute(value=ast.Name(id=acc, ctx=ast.Load()), attr='extend', ctx=ast.Load()), args=[v.value], keywords=[])
+                return ast.copy_location(ast.Expr(value=call), node)
+            return node
+
+        def visit_Return(self, node):
+            if node.value is None:
+                return ast.copy_location(ast.Return(value=ast.Name(id=acc, ctx=ast.Load())), node)
+            ok[0] = False
+            return node
+    fn = _Y().visit(fn)
+    if not ok[0] or any(isinstance(x, (ast.Yield, ast.YieldFrom)) for x in ast.walk(fn)) or any(isinstance(x, ast.Name) and x.id == acc for x in ast.walk(h.node)):
+        _LIST_VIEWS[key] = None
+        return None
+    doc = [fn.body[0]] if fn.body and isinstance(fn.body[0], ast.Expr) and isinstance(fn.body[0].value, ast.Constant) else []
+    rest = fn.body[len(doc):]
+    init = ast.Assign(targets=[ast.Name(id=acc, ctx=ast.Store())], value=ast.List(elts=[], ctx=ast.Load()))
+    fn.body = doc + [init] + rest + [ast.Return(value=ast.Name(id=acc, ctx=ast.Load()))]
+    fn.returns = None
+    ast.copy_location(init, h.node)
+    ast.fix_missing_locations(fn)
+    lv = FuncInfo(h.module, h.qualname, fn, h.cls, h.kind)
+    _LIST_VIEWS[key] = lv
+    return lv
+
+
 def _helper_for(idx: PyIndex, fi: FuncInfo, call: ast.Call, tenv: Optional[Dict[str, str]] = None) -> Optional[FuncInfo]:
+    h = _helper_for0(idx, fi, call, tenv)
+    if h is not None and isinstance(h.node, ast.FunctionDef) and any(isinstance(x, (ast.Yield, ast.YieldFrom)) for x in ast.walk(h.node)):
+        return _GenRef(h)
+    return h
+
+
+class _GenRef(FuncInfo):
+    """a generator function: `.node` is the generator as written (for the expression reading), `.list_view` the list-returning reading"""
+    def __init__(self, h: FuncInfo):
+        super().__init__(h.module, h.qualname, h.node, h.cls, h.kind)
+        self.list_view = _list_view(h)
+
+
+def _helper_for0(idx: PyIndex, fi: FuncInfo, call: ast.Call, tenv: Optional[Dict[str, str]] = None) -> Optional[FuncInfo]:
     f = call.func
     if tenv and isinstance(f, ast.Attribute) and isinstance(f.value, ast.Name) and f.value.id in tenv and f.value.id not in ('self', 'cls'):
         return idx.lookup_method(tenv[f.value.id], f.attr)
@@ -656,6 +727,8 @@ def inline_function(idx: PyIndex, fi: FuncInfo, depth: int = 2, keep=None, types
                     call, kind = st.value, 'return'
                 if call is not None:
                     h = _helper_for(idx, fi, call, tenv)
+                    if isinstance(h, _GenRef):
+                        h = h.list_view if _expr_form(idx, fi, call, h) is None else None       # (the expression reading is applied by the nested pass below)
                     if h is not None and h.id != fi.id and h.qualname.split('.')[-1] not in keep and _inlinable(h, kind == 'stmt'):
                         ex = _expand(idx, fi, call, h, st)
                         if ex is not None:
@@ -748,6 +821,13 @@ def inline_function(idx: PyIndex, fi: FuncInfo, depth: int = 2, keep=None, types
                                     _touched_modules.add(h2.module)
                                     changed = True
                                     return ast.copy_location(ex3, node)
+                                lv = getattr(h2, 'list_view', None)
+                                if lv is not None and _inlinable(lv, False):
+                                    ex4 = _expand(idx, fi, node, lv, st)
+                                    if ex4 is not None and ex4[1] is not None:
+                                        pre.extend(ex4[0])
+                                        changed = True
+                                        return ast.copy_location(copy.deepcopy(ex4[1]), node)
                             return node
                     st.value = _Nested().visit(st.value)
                     out.extend(pre)
